@@ -49,6 +49,9 @@ func genGroupRM(t *rapid.T, rt reflect.Type, firstID int) map[string]string {
 			}
 			if rm[name] == "" {
 				rm[name] = item
+				if rapid.IntRange(0, 5).Draw(t, "ownRule") == 1 {
+					rm[name] = "required," + item
+				}
 			} else {
 				rm[name] += "," + item
 			}
@@ -180,6 +183,15 @@ func forceGroups(t *rapid.T, ty *desc.T) {
 			}
 			if f.Tags["valid"] == "" {
 				f.Tags["valid"] = item
+				// a member may carry rules of its own in front of (or behind) the group rule: it stays a member
+				switch rapid.IntRange(0, 5).Draw(t, "ownRule") {
+				case 1:
+					f.Tags["valid"] = "required," + item
+				case 2:
+					f.Tags["valid"] = item + ",required|own"
+				case 3:
+					f.Tags["valid"] = "nosuchrule," + item
+				}
 			} else {
 				f.Tags["valid"] += "," + item
 			}
